@@ -663,6 +663,8 @@ def part_s3_response(ctx, only=None):
 PUT_2XX = [200, 201, 204]
 PUT_4XX = [400, 401, 403, 404, 405, 409, 411, 412, 413, 416, 429, 451, 499]
 PUT_5XX = [500, 501, 502, 503, 504, 505, 506, 507, 508, 510, 511, 599]
+PUT_3XX = [301, 307]        # a redirect without a Location header: nothing for requests to follow (finding C08-F5g)
+SIG_3XX = 'store=s3;fault=put_answered_3xx;symptom=failure_swallowed'
 
 
 def put_retry_cfgs():
@@ -682,6 +684,8 @@ def put_retry_cfgs():
 def put_status_label(s, fl):
     if 200 <= s < 300:
         return '2xx'
+    if 300 <= s < 400:
+        return '3xx'
     if 400 <= s < 500:
         return '4xx_forcelist' if s in fl else '4xx'
     if 500 <= s < 600:
@@ -695,6 +699,8 @@ def put_sequences(ctx, label, fl, nstat):
     singles = PUT_2XX + PUT_4XX + PUT_5XX
     if quick and label not in ('default', 'glitches_status0'):
         singles = sorted(set(ctx.rng.sample(singles, 8)) | {200, 403, 501, 507})
+    if label == 'default':
+        singles = singles + PUT_3XX
     for s in singles:
         if label == 'default' and s in fl:
             continue
@@ -738,7 +744,10 @@ def put_spec(ctx, sig, case, op, obs, answered, stored_ok, what):
     (raised by put_chunk / mark_complete, returned by put_chunk_noraise) and it is a ChunkStoreError; success reported
     => the object is in the store, complete."""
     refused = bool(answered) and all(400 <= s < 600 for s in answered)
-    if obs[0] == 'ok' and not stored_ok:
+    if obs[0] == 'ok' and not stored_ok and answered and 300 <= answered[-1] < 400:
+        ctx.disagree(SIG_3XX, case, show_put(obs), 'an error (answered %s)' % answered,
+                     '%s reported success although the server answered with a redirect status and stored nothing' % what)
+    elif obs[0] == 'ok' and not stored_ok:
         ctx.disagree(sig + ';symptom=failure_swallowed', case, show_put(obs), 'an error (answered %s)' % answered,
                      '%s reported success but the object is not in the store' % what)
     elif refused and obs[0] == 'ok':
@@ -2454,6 +2463,8 @@ def run_witness(ctx, w, tmp):
             srv.close()
     elif kind == 'put_enospc':
         part_put_single(ctx, tmp, w)
+    elif kind == 's3_put_status':
+        part_s3_put(ctx, only=dict(op=w.get('op', 'put_chunk_noraise'), retry='default', answers=[w['status']]))
     if kind == 'npy_truncation' and not ctx.model_ok:
         return
 
